@@ -46,6 +46,7 @@ type HarnessSpec struct {
 
 type UnitSpec struct {
 	RewriteGo []string      `json:"rewrite_go"` // repo files (relative to dir) whose go statements become verif_Go tasks
+	RewriteGate []string    `json:"rewrite_gate"` // repo files whose go statements become verif_GoGate (native start order follows the tape)
 	RewriteSync []string    `json:"rewrite_sync"` // repo files that get a verif_Yield() before every lock/atomic operation
 	Dir       string        `json:"dir"`
 	Files     []string      `json:"files"`
@@ -100,7 +101,9 @@ func pkgNameOf(dir string) (string, error) {
 // rewriteGoStmts turns every `go f(args)` in the file into `verif_Go(func() { f(args) })`
 // so that asynchronous tasks become explicit, harness-scheduled steps that run
 // identically under the engine and natively (used in scratch overlays only).
-func rewriteGoStmts(path string) ([]byte, error) {
+func rewriteGoStmts(path string) ([]byte, error) { return rewriteGoStmtsTo(path, "verif_Go") }
+
+func rewriteGoStmtsTo(path, fname string) ([]byte, error) {
 	fset := token.NewFileSet()
 	f, err := parser.ParseFile(fset, path, nil, parser.ParseComments)
 	if err != nil {
@@ -109,7 +112,7 @@ func rewriteGoStmts(path string) ([]byte, error) {
 	astutil.Apply(f, func(c *astutil.Cursor) bool {
 		if g, ok := c.Node().(*ast.GoStmt); ok {
 			lit := &ast.FuncLit{Type: &ast.FuncType{Params: &ast.FieldList{}}, Body: &ast.BlockStmt{List: []ast.Stmt{&ast.ExprStmt{X: g.Call}}}}
-			c.Replace(&ast.ExprStmt{X: &ast.CallExpr{Fun: ast.NewIdent("verif_Go"), Args: []ast.Expr{lit}}})
+			c.Replace(&ast.ExprStmt{X: &ast.CallExpr{Fun: ast.NewIdent(fname), Args: []ast.Expr{lit}}})
 		}
 		return true
 	}, nil)
@@ -261,6 +264,14 @@ func load(spec *Spec) *loaded {
 			out, err := rewriteGoStmts(path)
 			if err != nil {
 				return &loaded{errs: []string{"rewrite_go " + rf + ": " + err.Error()}}
+			}
+			ov[path] = out
+		}
+		for _, rf := range u.RewriteGate {
+			path := filepath.Join(dir, rf)
+			out, err := rewriteGoStmtsTo(path, "verif_GoGate")
+			if err != nil {
+				return &loaded{errs: []string{"rewrite_gate " + rf + ": " + err.Error()}}
 			}
 			ov[path] = out
 		}
